@@ -85,3 +85,19 @@ def uiOp (j : Json) : Except String Res := do
            nontrivial := keys.length ≥ 3 }
 
 end Ops
+
+namespace Ops
+
+/-- op "uistress": predicate-only (schedules cannot be replayed by the model): no overlapping
+    frame emission, every frame as tall as the state said when it was drawn, every key handler
+    returned. -/
+def uiStressOp (j : Json) : Except String Res := do
+  let impl := (j.getObjVal? "impl").toOption.getD Json.null
+  let n (k : String) : Nat := ((impl.getObjVal? k).toOption.bind (·.getNat?.toOption)).getD 1
+  let stuck := (impl.getObjVal? "stuck").toOption != some (Json.bool false)
+  pure { model := impl,
+         preds := [("frames_one_at_a_time", n "overlaps" == 0), ("every_key_processed", !stuck),
+                   ("frame_height_matches_state", n "badheights" == 0)],
+         nontrivial := (impl.getObjVal? "frames_emitted").toOption == some (Json.bool true) }
+
+end Ops
